@@ -478,8 +478,11 @@ RetransEv ==
        \* spaced by the response time-out (lower bound, 20 % tolerance)
        !.rtSpacing = (\A i \in 1..(cnt - 1) : 10 * (e.tx[i + 1] - e.tx[i]) >= 8 * e.tMs),
        \* it stops as soon as a response with that sequence number arrives; dead only when every transmission went unanswered
-       \* (e.slow: the scripted peer's own answer left more than half a time-out late - not judged)
-       !.rtOutcome = (IF e.mode = "none" THEN cnt = 1 + e.n /\ e.dead ELSE e.slow \/ (cnt = e.k /\ ~e.dead))]
+       \* (not judged for an answered request when the harness or the agent was visibly held up: e.slow - the scripted peer's own
+       \* answer left more than half a time-out late; a gap between two transmissions more than 20 % above the time-out - the
+       \* agent's timer fired late, so its handling of the answer may have been late as well)
+       !.rtOutcome = (IF e.mode = "none" THEN cnt = 1 + e.n /\ e.dead
+                      ELSE e.slow \/ (\E i \in 1..(cnt - 1) : 10 * (e.tx[i + 1] - e.tx[i]) > 12 * e.tMs) \/ (cnt = e.k /\ ~e.dead))]
   /\ last' = [ev |-> "retrans", kind |-> e.mode, accepted |-> FALSE, u |-> "-"]
   /\ Advance
 \* C12: a Heartbeat Request of the peer in the middle of the agent's heartbeat interval postpones the agent's next one
